@@ -344,3 +344,481 @@ Proof.
 Qed.
 
 End Views.
+
+(* ================================================================ sums *)
+
+Lemma otraverse_spec {X Y} (f : X -> outcome Y) l ys :
+  otraverse f l = Ok ys <-> map f l = map Ok ys.
+Proof.
+  revert ys; induction l as [|a l IH]; intros ys; cbn [otraverse map].
+  - split; [intros [= <-]; reflexivity|destruct ys; [reflexivity|discriminate]].
+  - destruct (f a) as [c|e|]; cbn [obind].
+    + destruct (otraverse f l) as [ys'|e|] eqn:E; cbn [omap].
+      * split.
+        -- intros [= <-]. cbn [map]. f_equal. apply IH. reflexivity.
+        -- destruct ys as [|y ys]; [discriminate|]. cbn [map]. intros [= -> H].
+           apply IH in H. injection H as ->. reflexivity.
+      * split; [discriminate|]. destruct ys as [|y ys]; [discriminate|]. cbn [map].
+        intros [= _ H]. apply IH in H. discriminate.
+      * split; [discriminate|]. destruct ys as [|y ys]; [discriminate|]. cbn [map].
+        intros [= _ H]. apply IH in H. discriminate.
+    + split; [discriminate|]. destruct ys; discriminate.
+    + split; [discriminate|]. destruct ys; discriminate.
+Qed.
+
+Lemma otraverse_total {X Y} (f : X -> outcome Y) l :
+  (forall x, In x l -> exists y, f x = Ok y) -> exists ys, otraverse f l = Ok ys.
+Proof.
+  induction l as [|a l IH]; intros H; cbn [otraverse]; [eauto|].
+  destruct (H a (or_introl eq_refl)) as [c ->]. cbn [obind].
+  destruct IH as [ys ->]; [intros x Hx; apply H; right; exact Hx|]. cbn [omap]. eauto.
+Qed.
+
+Lemma sequence_map_total {X Y} (g : X -> option Y) xs :
+  (forall x, In x xs -> exists y, g x = Some y) ->
+  exists ys, sequence (map g xs) = Some ys /\ length ys = length xs /\
+             forall k x, nth_error xs k = Some x -> nth_error ys k = g x.
+Proof.
+  intros H. destruct (sequence (map g xs)) as [ys|] eqn:E.
+  - exists ys. split; [reflexivity|]. apply sequence_Some in E. split.
+    + apply (f_equal (@length _)) in E. rewrite !map_length in E. auto.
+    + intros k x Hk. apply (f_equal (fun l => nth_error l k)) in E.
+      rewrite !nth_error_map', Hk in E. cbn [option_map] in E.
+      destruct (nth_error ys k); cbn [option_map] in E; congruence.
+  - exfalso. apply sequence_None_iff in E. apply in_map_iff in E. destruct E as [x [E Hx]].
+    destruct (H x Hx) as [y Hy]. congruence.
+Qed.
+
+Section Sums.
+Context {R : Type} (ops : numops R).
+
+(* the textbook sum of a list, and the textbook dot product *)
+Definition sum_list (l : list R) : R := fold_right (nadd ops) (nzero ops) l.
+Definition dot_spec (a b : list R) : R := sum_list (map2 (nmul ops) a b).
+
+Hypothesis Rth : ring_theory (nzero ops) (none_ ops) (nadd ops) (nmul ops) (nsub ops) (nneg ops) eq.
+
+Lemma fold_left_add_sum r x : fold_left (nadd ops) r x = nadd ops x (sum_list r).
+Proof.
+  revert x; induction r as [|y r IH]; intros x; cbn [fold_left sum_list fold_right].
+  - rewrite (Radd_comm Rth). symmetry. apply (Radd_0_l Rth).
+  - rewrite IH. symmetry. apply (Radd_assoc Rth).
+Qed.
+
+(* the left-to-right reduce of the code is the sum, in a commutative ring *)
+Lemma reduce_is_sum l : l <> [] -> reduce (nadd ops) l = Some (sum_list l).
+Proof.
+  destruct l as [|x r]; [congruence|]. intros _. cbn [reduce]. f_equal. apply fold_left_add_sum.
+Qed.
+
+Theorem scalar_product_is_dot a b : map2 (nmul ops) a b <> [] ->
+  scalar_product ops a b = Ok (dot_spec a b).
+Proof. intros H. unfold scalar_product, dot_spec. rewrite reduce_is_sum by exact H. reflexivity. Qed.
+End Sums.
+
+(* ================================================================ scalar product, matrix product *)
+Section Products.
+Context {R : Type} (ops : numops R).
+
+Lemma reduce_Some {X} (f : X -> X -> X) l : l <> [] -> exists r, reduce f l = Some r.
+Proof. destruct l; [congruence|]. intros _. cbn. eauto. Qed.
+
+(* Tensor::scalar_product / TensorView::scalar_product on equal 1-dimensional shapes *)
+Theorem dot_ok x y nm len : operand_wf x -> operand_wf y ->
+  op_shape x = [(nm, len)] -> op_shape y = [(nm, len)] ->
+  exists lx ly r, op_iter x = Some lx /\ op_iter y = Some ly /\
+    length lx = N.to_nat len /\ length ly = N.to_nat len /\
+    (forall i, i < len -> nth_error lx (N.to_nat i) = op_at x [i] /\
+                          nth_error ly (N.to_nat i) = op_at y [i]) /\
+    reduce (nadd ops) (map2 (nmul ops) lx ly) = Some r /\ t_dot ops x y = Ok r.
+Proof.
+  intros Hx Hy Sx Sy.
+  destruct (op_iter_spec x Hx) as [lx [Ex [Lx Nx]]].
+  destruct (op_iter_spec y Hy) as [ly [Ey [Ly Ny]]].
+  rewrite Sx in Lx, Nx. rewrite Sy in Ly, Ny.
+  assert (Hlen : 0 < len).
+  { destruct (op_shape_valid x Hx) as [[_ Hpos] _]. rewrite Sx in Hpos. inversion Hpos; auto. }
+  assert (El : elements [(nm, len)] = len) by (unfold elements; cbn; lia).
+  rewrite El in Lx, Ly.
+  assert (Hne : map2 (nmul ops) lx ly <> []).
+  { intros E. apply (f_equal (@length _)) in E. rewrite map2_length, Lx, Ly in E. cbn in E. lia. }
+  destruct (reduce_Some (nadd ops) _ Hne) as [r Hr].
+  (* the right operand is read as a view: same elements (storage order = view order) *)
+  assert (Ey' : view_elems (op_view y) = Some ly).
+  { destruct y as [t|v]; cbn [op_view op_iter] in *; [|exact Ey].
+    injection Ey as <-. apply direct_iter_is_view_order. apply Hy. }
+  exists lx, ly, r. repeat split; auto.
+  - assert (Hr' : in_range [i] (lens_of [(nm, len)])) by (cbn; auto).
+    destruct (Nx [i] Hr') as [E _]. rewrite <- E. cbn [flat lens_of map snd]. f_equal. cbn. lia.
+  - assert (Hr' : in_range [i] (lens_of [(nm, len)])) by (cbn; auto).
+    destruct (Ny [i] Hr') as [E _]. rewrite <- E. cbn [flat lens_of map snd]. f_equal. cbn. lia.
+  - unfold t_dot. rewrite Sx, Sy.
+    assert (E : shape_eqb [(nm, len)] [(nm, len)] = true) by (apply shape_eqb_spec; reflexivity).
+    rewrite E, N.eqb_refl, Ex, Ey'. unfold scalar_product. rewrite Hr. reflexivity.
+Qed.
+
+Theorem dot_reject x y : op_shape x <> op_shape y -> t_dot ops x y = Panic.
+Proof. intros H. unfold t_dot. apply shape_eqb_false in H. rewrite H. reflexivity. Qed.
+
+(* rows and columns of a well-formed 2-dimensional view *)
+Lemma select_row_ok (v : tview R) n0 n1 m n i : view_wf v -> v_shape v = [(n0, m); (n1, n)] ->
+  i < m -> exists row, select_row v i n = Some row /\ length row = N.to_nat n /\
+    forall k, k < n -> nth_error row (N.to_nat k) = v_get v [i; k].
+Proof.
+  intros [_ [_ Hg]] Hs Hi. unfold select_row.
+  destruct (sequence_map_total (fun k => v_get v [i; k]) (nrange n)) as [row [E [L Nth]]].
+  - intros k Hk. apply in_nrange in Hk. apply Hg. rewrite Hs. cbn. auto.
+  - exists row. split; [exact E|]. split; [rewrite L; apply nrange_length|].
+    intros k Hk. apply Nth. apply nrange_nth, Hk.
+Qed.
+
+Lemma select_column_ok (v : tview R) n0 n1 n k j : view_wf v -> v_shape v = [(n0, n); (n1, k)] ->
+  j < k -> exists col, select_column v j n = Some col /\ length col = N.to_nat n /\
+    forall i, i < n -> nth_error col (N.to_nat i) = v_get v [i; j].
+Proof.
+  intros [_ [_ Hg]] Hs Hj. unfold select_column.
+  destruct (sequence_map_total (fun i => v_get v [i; j]) (nrange n)) as [col [E [L Nth]]].
+  - intros i Hi. apply in_nrange in Hi. apply Hg. rewrite Hs. cbn. auto.
+  - exists col. split; [exact E|]. split; [rewrite L; apply nrange_length|].
+    intros i Hi. apply Nth. apply nrange_nth, Hi.
+Qed.
+
+(* tensor_view_matrix_product: MxN times NxL *)
+Theorem matmul_ok x y ln0 ln1 rn0 rn1 m n k :
+  view_wf (op_view x) -> view_wf (op_view y) ->
+  v_shape (op_view x) = [(ln0, m); (ln1, n)] -> v_shape (op_view y) = [(rn0, n); (rn1, k)] ->
+  ln0 <> rn1 -> m * k <= usize_max ->
+  exists t, t_matmul ops x y = Ok t /\ t_shape t = [(ln0, m); (rn1, k)] /\ tensor_inv t /\
+    forall i j, i < m -> j < k ->
+      exists row col,
+        select_row (op_view x) i n = Some row /\ select_column (op_view y) j n = Some col /\
+        length row = N.to_nat n /\ length col = N.to_nat n /\
+        (forall kk, kk < n -> nth_error row (N.to_nat kk) = v_get (op_view x) [i; kk] /\
+                              nth_error col (N.to_nat kk) = v_get (op_view y) [kk; j]) /\
+        t_get t [i; j] = reduce (nadd ops) (map2 (nmul ops) row col).
+Proof.
+  intros Hl Hr Sl Sr Hne Hb. unfold t_matmul. rewrite Sl, Sr, N.eqb_refl. cbn [negb].
+  assert (E : Nat.eqb ln0 rn1 = false) by (apply Nat.eqb_neq; exact Hne). rewrite E.
+  assert (Hm : 0 < m /\ 0 < n).
+  { destruct Hl as [[_ Hpos] _]. rewrite Sl in Hpos. cbn in Hpos.
+    inversion Hpos as [|? ? H1 H2]; subst. inversion H2; subst. auto. }
+  assert (Hk : 0 < k).
+  { destruct Hr as [[_ Hpos] _]. rewrite Sr in Hpos. cbn in Hpos.
+    inversion Hpos as [|? ? H1 H2]; subst. inversion H2; subst. auto. }
+  set (sh := [(ln0, m); (rn1, k)]).
+  assert (Hv : valid_shape sh).
+  { split; cbn.
+    - constructor; [intros [H|[]]; congruence|constructor; [intros []|constructor]].
+    - repeat constructor; lia. }
+  assert (He : elements sh = m * k) by (unfold elements; cbn; lia).
+  destruct (tensor_from_ok sh (repeat (nzero ops) (N.to_nat (elements sh))) Hv) as [Hz _];
+    [lia|apply repeat_length|]. rewrite Hz. cbn [obind].
+  match goal with |- context [otraverse ?c _] => set (cell := c) end.
+  assert (Hcell : forall i j, i < m -> j < k ->
+    exists row col, select_row (op_view x) i n = Some row /\
+      select_column (op_view y) j n = Some col /\
+      length row = N.to_nat n /\ length col = N.to_nat n /\
+      (forall kk, kk < n -> nth_error row (N.to_nat kk) = v_get (op_view x) [i; kk] /\
+                            nth_error col (N.to_nat kk) = v_get (op_view y) [kk; j]) /\
+      exists r, reduce (nadd ops) (map2 (nmul ops) row col) = Some r /\ cell [i; j] = Ok r).
+  { intros i j Hi Hj.
+    destruct (select_row_ok _ _ _ _ _ i Hl Sl Hi) as [row [Er [Lr Nr]]].
+    destruct (select_column_ok _ _ _ _ _ j Hr Sr Hj) as [col [Ec [Lc Nc]]].
+    exists row, col. repeat split; auto.
+    destruct (reduce_Some (nadd ops) (map2 (nmul ops) row col)) as [r Hred].
+    { intros E0. apply (f_equal (@length _)) in E0. rewrite map2_length, Lr, Lc in E0. cbn in E0. lia. }
+    exists r. split; [exact Hred|]. unfold cell. rewrite Er, Ec. unfold scalar_product.
+    rewrite Hred. reflexivity. }
+  destruct (otraverse_total cell (all_indexes [m; k])) as [data Hdata].
+  { intros idx Hin. apply all_indexes_in_range in Hin.
+    destruct idx as [|i [|j [|? ?]]]; cbn in Hin; try tauto.
+    destruct Hin as [Hi [Hj _]].
+    destruct (Hcell i j Hi Hj) as [_ [_ [_ [_ [_ [_ [_ [r [_ Hc]]]]]]]]]. eauto. }
+  rewrite Hdata. cbn [omap].
+  pose proof Hdata as Hmap. apply otraverse_spec in Hmap.
+  assert (Ld : length data = N.to_nat (elements sh)).
+  { apply (f_equal (@length _)) in Hmap. rewrite !map_length, all_indexes_length in Hmap.
+    rewrite <- Hmap, He. cbn. f_equal. lia. }
+  assert (Hinv : tensor_inv (mkTensor data sh (compute_strides sh))).
+  { split; [exact Hv|]. split; [reflexivity|]. cbn [t_data t_shape]. lia. }
+  eexists. split; [reflexivity|]. split; [reflexivity|]. split; [exact Hinv|].
+  intros i j Hi Hj.
+  destruct (Hcell i j Hi Hj) as [row [col [Er [Ec [Lr [Lc [Nth [r [Hred Hc]]]]]]]]].
+  exists row, col. repeat split; auto; try apply Nth; auto.
+  assert (Hin : in_range [i; j] (lens_of sh)) by (cbn; auto).
+  rewrite t_get_flat by (auto). cbn [t_data t_shape].
+  apply (f_equal (fun l => nth_error l (N.to_nat (flat [i; j] (lens_of sh))))) in Hmap.
+  rewrite !nth_error_map' in Hmap.
+  change (lens_of sh) with [m; k] in *.
+  rewrite all_indexes_nth in Hmap by exact Hin. cbn [option_map] in Hmap. rewrite Hc in Hmap.
+  rewrite Hred. destruct (nth_error data _); cbn [option_map] in Hmap; congruence.
+Qed.
+
+(* each violated rule: a panic, never a value *)
+Theorem matmul_reject_inner x y ln0 ln1 rn0 rn1 m n n' k :
+  v_shape (op_view x) = [(ln0, m); (ln1, n)] -> v_shape (op_view y) = [(rn0, n'); (rn1, k)] ->
+  n <> n' -> t_matmul ops x y = Panic.
+Proof.
+  intros Sl Sr H. unfold t_matmul. rewrite Sl, Sr.
+  apply N.eqb_neq in H. rewrite H. reflexivity.
+Qed.
+
+Theorem matmul_reject_names x y ln0 ln1 rn0 rn1 m n n' k :
+  v_shape (op_view x) = [(ln0, m); (ln1, n)] -> v_shape (op_view y) = [(rn0, n'); (rn1, k)] ->
+  ln0 = rn1 -> t_matmul ops x y = Panic.
+Proof.
+  intros Sl Sr ->. unfold t_matmul. rewrite Sl, Sr.
+  destruct (n =? n'); cbn [negb]; [|reflexivity]. rewrite Nat.eqb_refl. reflexivity.
+Qed.
+
+End Products.
+
+(* ================================================================ matrices *)
+
+Lemma map_flat_map {X Y Z} (g : Y -> Z) (h : X -> list Y) l :
+  map g (flat_map h l) = flat_map (fun x => map g (h x)) l.
+Proof. induction l as [|a l IH]; cbn; [reflexivity|]. rewrite map_app, IH. reflexivity. Qed.
+
+Lemma otraverse_map {X Y Z} (f : Y -> outcome Z) (g : X -> Y) l :
+  otraverse f (map g l) = otraverse (fun x => f (g x)) l.
+Proof. induction l as [|a l IH]; cbn; [reflexivity|]. rewrite IH. reflexivity. Qed.
+
+Lemma otraverse_ext {X Y} (f g : X -> outcome Y) l :
+  (forall x, In x l -> f x = g x) -> otraverse f l = otraverse g l.
+Proof.
+  induction l as [|a l IH]; intros H; cbn; [reflexivity|].
+  rewrite (H a (or_introl eq_refl)), IH; [reflexivity|]. intros x Hx. apply H. right. exact Hx.
+Qed.
+
+Section MatrixTensor.
+Context {A : Type}.
+
+(* the same flat data seen through the 2-dimensional tensor API, under the names n0 n1 *)
+Definition tensor_of_matrix (m : matrix A) (n0 n1 : name) : tensor A :=
+  let sh := [(n0, m_rows m); (n1, m_cols m)] in mkTensor (m_data m) sh (compute_strides sh).
+Definition tview_of_mview (v : mview A) (n0 n1 : name) : tview A :=
+  mkView [(n0, mv_rows v); (n1, mv_cols v)]
+         (fun idx => match idx with [i; j] => mv_get v i j | _ => None end).
+Definition toperand (o : moperand A) (n0 n1 : name) : operand A :=
+  match o with
+  | OM m => OT (tensor_of_matrix m n0 n1)
+  | OMV v => OV (tview_of_mview v n0 n1)
+  end.
+
+(* what is compared: rows, columns, row-major data *)
+Definition flat_of_matrix (m : matrix A) : N * N * list A := (m_rows m, m_cols m, m_data m).
+Definition flat_of_tensor (t : tensor A) : N * N * list A :=
+  match t_shape t with
+  | [(_, r); (_, c)] => (r, c, t_data t)
+  | _ => (0, 0, [])
+  end.
+
+Lemma toperand_shape o n0 n1 :
+  op_shape (toperand o n0 n1) = [(n0, fst (mop_size o)); (n1, snd (mop_size o))].
+Proof. destruct o; reflexivity. Qed.
+
+Lemma toperand_iter o n0 n1 : op_iter (toperand o n0 n1) = mop_iter o.
+Proof.
+  destruct o as [m|v]; cbn [toperand op_iter mop_iter]; [reflexivity|].
+  unfold view_elems, mv_row_major. cbn [tview_of_mview v_shape v_get lens_of map snd].
+  rewrite all_indexes_2, map_flat_map. f_equal. apply flat_map_ext. intros i.
+  rewrite map_map. reflexivity.
+Qed.
+
+Lemma tensor_of_matrix_get (m : matrix A) n0 n1 i j :
+  t_get (tensor_of_matrix m n0 n1) [i; j] = m_get m i j.
+Proof.
+  unfold t_get, m_get, tensor_of_matrix, get_index_direct, compute_strides.
+  cbn [t_strides t_shape t_data length seq map skipn lens_of snd gid prod fold_right].
+  destruct (N.leb_spec (m_rows m) i), (N.ltb_spec i (m_rows m)); try lia; cbn [andb]; try reflexivity.
+  destruct (N.leb_spec (m_cols m) j), (N.ltb_spec j (m_cols m)); try lia; try reflexivity.
+  f_equal. lia.
+Qed.
+
+Lemma toperand_view_get o n0 n1 i j :
+  v_get (op_view (toperand o n0 n1)) [i; j] = mv_get (mop_view o) i j.
+Proof. destruct o as [m|v]; cbn; [apply tensor_of_matrix_get|reflexivity]. Qed.
+
+Lemma toperand_view_shape o n0 n1 :
+  v_shape (op_view (toperand o n0 n1)) = [(n0, mv_rows (mop_view o)); (n1, mv_cols (mop_view o))].
+Proof. destruct o; reflexivity. Qed.
+
+(* Matrix::from_flat_row_major and Tensor::from accept the same (size, data) pairs *)
+Lemma ctor_agree n0 n1 r c (d : list A) : n0 <> n1 ->
+  omap flat_of_matrix (from_flat_row_major r c d) =
+  omap flat_of_tensor (tensor_from [(n0, r); (n1, c)] d).
+Proof.
+  intros Hne. unfold from_flat_row_major, tensor_from.
+  set (len := N.of_nat (length d)).
+  destruct (validate_dimensions [(n0, r); (n1, c)] len) eqn:V.
+  - apply validate_dimensions_spec in V. destruct V as [[_ Hpos] [He Hb]].
+    unfold elements in He, Hb. cbn in He, Hb, Hpos.
+    inversion Hpos as [|? ? H1 H2]; subst. inversion H2 as [|? ? H3 _]; subst.
+    destruct (N.leb_spec (r * c) usize_max); [|lia].
+    destruct (N.eqb_spec (r * c) len); [|lia].
+    destruct (N.eqb_spec len 0); [nia|]. reflexivity.
+  - destruct ((r * c <=? usize_max) && (r * c =? len) && negb (len =? 0)) eqn:C; [|reflexivity].
+    exfalso. rewrite !andb_true_iff, negb_true_iff, N.leb_le, N.eqb_eq, N.eqb_neq in C.
+    destruct C as [[C1 C2] C3].
+    assert (validate_dimensions [(n0, r); (n1, c)] len = true); [|congruence].
+    apply validate_dimensions_spec. unfold elements. cbn. repeat split; try lia.
+    + cbn. constructor; [intros [H|[]]; congruence|constructor; [intros []|constructor]].
+    + cbn. repeat constructor; nia.
+Qed.
+
+(* elementwise operators: the matrix API and the tensor API compute the same flat data, for
+   every container / view combination of operands *)
+Theorem zip_agree (f : A -> A -> A) x y n0 n1 : n0 <> n1 ->
+  omap flat_of_matrix (m_zip_with f x y) =
+  omap flat_of_tensor (t_zip_with f (toperand x n0 n1) (toperand y n0 n1)).
+Proof.
+  intros Hne. unfold m_zip_with, t_zip_with. rewrite !toperand_shape, !toperand_iter.
+  destruct (mop_size x) as [lr lc], (mop_size y) as [rr rc]. cbn [fst snd shape_eqb].
+  unfold dim_eqb. cbn [fst snd]. rewrite !Nat.eqb_refl. cbn [andb]. rewrite andb_true_r.
+  destruct ((lr =? rr) && (lc =? rc)); [|reflexivity].
+  destruct (mop_iter x), (mop_iter y); try reflexivity. apply ctor_agree, Hne.
+Qed.
+
+Theorem map_agree (f : A -> A) x n0 n1 : n0 <> n1 ->
+  (match x with OM m => N.of_nat (length (m_data m)) = m_rows m * m_cols m /\
+                        0 < m_rows m * m_cols m <= usize_max | OMV _ => True end) ->
+  omap flat_of_matrix (m_map f x) = omap flat_of_tensor (t_map f (toperand x n0 n1)).
+Proof.
+  intros Hne Hinv. unfold m_map. destruct x as [m|v]; cbn [toperand t_map mop_iter mop_size fst snd].
+  - unfold from_flat_row_major. rewrite map_length. destruct Hinv as [Hl Hb].
+    destruct (N.leb_spec (m_rows m * m_cols m) usize_max); [|lia].
+    destruct (N.eqb_spec (m_rows m * m_cols m) (N.of_nat (length (m_data m)))); [|lia].
+    destruct (N.eqb_spec (N.of_nat (length (m_data m))) 0); [lia|]. reflexivity.
+  - pose proof (toperand_iter (OMV v) n0 n1) as E. cbn [toperand op_iter mop_iter] in E. rewrite E.
+    destruct (mv_row_major v); [|reflexivity]. apply ctor_agree, Hne.
+Qed.
+
+End MatrixTensor.
+
+Section MatrixProduct.
+Context {R : Type} (ops : numops R).
+
+(* matrix multiplication: same flat data from both APIs (left named n0 n1, right n2 n3) *)
+Theorem matmul_agree (x y : moperand R) n0 n1 n2 n3 : n0 <> n3 ->
+  mv_rows (mop_view x) * mv_cols (mop_view y) <= usize_max ->
+  omap flat_of_matrix (m_matmul ops x y) =
+  omap flat_of_tensor (t_matmul ops (toperand x n0 n1) (toperand y n2 n3)).
+Proof.
+  intros Hne Hb. unfold m_matmul, t_matmul. rewrite !toperand_view_shape.
+  set (l := mop_view x) in *. set (r := mop_view y) in *.
+  destruct (mv_cols l =? mv_rows r) eqn:En; cbn [negb]; [|reflexivity].
+  assert (E : Nat.eqb n0 n3 = false) by (apply Nat.eqb_neq; exact Hne). rewrite E.
+  set (sh := [(n0, mv_rows l); (n3, mv_cols r)]).
+  assert (He : elements sh = mv_rows l * mv_cols r) by (unfold elements; cbn; lia).
+  destruct ((mv_rows l =? 0) || (mv_cols r =? 0)) eqn:Z.
+  - (* an empty result: Matrix::empty and Tensor::from both refuse *)
+    unfold tensor_from.
+    assert (V : validate_dimensions sh (N.of_nat (length (repeat (nzero ops) (N.to_nat (elements sh))))) = false).
+    { destruct (validate_dimensions sh _) eqn:V; [|reflexivity]. exfalso.
+      apply validate_dimensions_spec in V. destruct V as [[_ Hpos] _]. cbn in Hpos.
+      inversion Hpos as [|? ? H1 H2]; subst. inversion H2 as [|? ? H3 _]; subst.
+      apply orb_true_iff in Z. rewrite !N.eqb_eq in Z. lia. }
+    rewrite V. reflexivity.
+  - apply orb_false_iff in Z. rewrite !N.eqb_neq in Z.
+    assert (Hv : valid_shape sh).
+    { split; cbn.
+      - constructor; [intros [H|[]]; congruence|constructor; [intros []|constructor]].
+      - repeat constructor; lia. }
+    destruct (tensor_from_ok sh (repeat (nzero ops) (N.to_nat (elements sh))) Hv) as [Hz _];
+      [lia|apply repeat_length|]. rewrite Hz. cbn [obind].
+    rewrite all_indexes_2.
+    replace (flat_map (fun i => map (fun j => [i; j]) (nrange (mv_cols r))) (nrange (mv_rows l)))
+      with (map (fun ij : N * N => [fst ij; snd ij])
+                (flat_map (fun i => map (fun j => (i, j)) (nrange (mv_cols r))) (nrange (mv_rows l))))
+      by (rewrite map_flat_map; apply flat_map_ext; intros i; rewrite map_map; reflexivity).
+    rewrite otraverse_map.
+    match goal with |- omap _ (omap _ (otraverse ?f ?l1)) = omap _ (omap _ (otraverse ?g _)) =>
+      rewrite (otraverse_ext g f l1) end.
+    + destruct (otraverse _ _); reflexivity.
+    + intros [i j] _. cbn [fst snd]. unfold select_row, select_column, row_iter, column_iter.
+      apply N.eqb_eq in En.
+      replace (map (fun k => v_get (op_view (toperand x n0 n1)) [i; k]) (nrange (mv_cols l)))
+        with (map (fun k => mv_get l i k) (nrange (mv_cols l)))
+        by (apply map_ext; intros k; symmetry; apply toperand_view_get).
+      replace (map (fun k => v_get (op_view (toperand y n2 n3)) [k; j]) (nrange (mv_rows r)))
+        with (map (fun k => mv_get r k j) (nrange (mv_rows r)))
+        by (apply map_ext; intros k; symmetry; apply toperand_view_get).
+      reflexivity.
+Qed.
+
+Theorem m_zip_with_reject (f : R -> R -> R) x y : mop_size x <> mop_size y ->
+  m_zip_with f x y = Panic.
+Proof.
+  unfold m_zip_with. destruct (mop_size x) as [lr lc], (mop_size y) as [rr rc]. intros H.
+  destruct ((lr =? rr) && (lc =? rc)) eqn:E; [|reflexivity].
+  apply andb_true_iff in E. rewrite !N.eqb_eq in E. destruct E as [-> ->]. congruence.
+Qed.
+
+Theorem m_matmul_reject x y : mv_cols (mop_view x) <> mv_rows (mop_view y) ->
+  m_matmul ops x y = Panic.
+Proof. intros H. unfold m_matmul. apply N.eqb_neq in H. rewrite H. reflexivity. Qed.
+
+End MatrixProduct.
+
+(* ================================================================ operand forms *)
+Section Forms.
+Context {R : Type} (ops : numops R).
+
+(* the matrix product only reads the shapes and the in-range elements of its operands *)
+Lemma matmul_ext (x x' y y' : operand R) :
+  v_shape (op_view x) = v_shape (op_view x') -> v_shape (op_view y) = v_shape (op_view y') ->
+  (forall idx, in_range idx (lens_of (v_shape (op_view x))) ->
+               v_get (op_view x) idx = v_get (op_view x') idx) ->
+  (forall idx, in_range idx (lens_of (v_shape (op_view y))) ->
+               v_get (op_view y) idx = v_get (op_view y') idx) ->
+  t_matmul ops x y = t_matmul ops x' y'.
+Proof.
+  intros Sx Sy Gx Gy. unfold t_matmul. rewrite <- Sx, <- Sy.
+  destruct (v_shape (op_view x)) as [|[ln0 m] [|[ln1 n] [|? ?]]] eqn:El; try reflexivity.
+  destruct (v_shape (op_view y)) as [|[rn0 n'] [|[rn1 k] [|? ?]]] eqn:Er; try reflexivity.
+  destruct (negb (n =? n')); [reflexivity|]. destruct (Nat.eqb ln0 rn1); [reflexivity|].
+  destruct (tensor_from _ _); cbn [obind]; try reflexivity. f_equal.
+  apply otraverse_ext. intros idx Hin. apply all_indexes_in_range in Hin.
+  destruct idx as [|i [|j [|? ?]]]; cbn in Hin; try tauto. destruct Hin as [Hi [Hj _]].
+  unfold select_row, select_column.
+  replace (map (fun k0 => v_get (op_view x') [i; k0]) (nrange n))
+    with (map (fun k0 => v_get (op_view x) [i; k0]) (nrange n)).
+  2:{ apply map_ext_in. intros k0 Hk. apply in_nrange in Hk. apply Gx. cbn. auto. }
+  replace (map (fun k0 => v_get (op_view y') [k0; j]) (nrange n'))
+    with (map (fun k0 => v_get (op_view y) [k0; j]) (nrange n')).
+  2:{ apply map_ext_in. intros k0 Hk. apply in_nrange in Hk. apply Gy. cbn. auto. }
+  reflexivity.
+Qed.
+
+(* all container / view combinations of the same operands give the same result: for the
+   operators that consume the element iterators ... *)
+Theorem forms_agree_zip (f : R -> R -> R) (vx vy : tview R) lx ly mx my :
+  view_wf vx -> view_wf vy -> view_elems vx = Some lx -> view_elems vy = Some ly ->
+  tensor_from (v_shape vx) lx = Ok mx -> tensor_from (v_shape vy) ly = Ok my ->
+  t_zip_with f (OT mx) (OT my) = t_zip_with f (OV vx) (OV vy) /\
+  t_zip_with f (OT mx) (OV vy) = t_zip_with f (OV vx) (OV vy) /\
+  t_zip_with f (OV vx) (OT my) = t_zip_with f (OV vx) (OV vy).
+Proof.
+  intros Wx Wy Ex Ey Mx My.
+  destruct (container_is_view vx lx mx Wx Ex Mx) as [Sx [Ix _]].
+  destruct (container_is_view vy ly my Wy Ey My) as [Sy [Iy _]].
+  unfold t_zip_with. rewrite Sx, Sy, Ix, Iy. repeat split; reflexivity.
+Qed.
+
+(* ... and for the matrix product, which indexes its operands *)
+Theorem forms_agree_matmul (vx vy : tview R) lx ly mx my :
+  view_wf vx -> view_wf vy -> view_elems vx = Some lx -> view_elems vy = Some ly ->
+  tensor_from (v_shape vx) lx = Ok mx -> tensor_from (v_shape vy) ly = Ok my ->
+  t_matmul ops (OT mx) (OT my) = t_matmul ops (OV vx) (OV vy) /\
+  t_matmul ops (OT mx) (OV vy) = t_matmul ops (OV vx) (OV vy) /\
+  t_matmul ops (OV vx) (OT my) = t_matmul ops (OV vx) (OV vy).
+Proof.
+  intros Wx Wy Ex Ey Mx My.
+  destruct (container_is_view vx lx mx Wx Ex Mx) as [Sx [_ [_ Gx]]].
+  destruct (container_is_view vy ly my Wy Ey My) as [Sy [_ [_ Gy]]].
+  cbn [op_shape op_at] in *.
+  repeat split; apply matmul_ext; cbn [op_view view_of_tensor v_shape v_get]; auto;
+    try (rewrite Sx; exact Gx); try (rewrite Sy; exact Gy).
+Qed.
+
+End Forms.
